@@ -291,6 +291,20 @@ func c10StatObject(c *Ctx, a *sketchAnchors, rule string, part string) {
 					if e.Kind == "store" && e.Addr.isRecv() && e.Val.Op == "load" && e.Val.Args[0].Op == "call" && ctor != nil && e.Val.Args[0].Sym == funcName(ctor) {
 						v = zeroOf(fn)
 					}
+					// the same literal as SSA writes it: *s = zero value, then the listed fields one by one
+					if e.Kind == "store" && e.Addr.isRecv() && e.Val.Op == "const" && strings.HasPrefix(e.Val.Sym, "zero:") {
+						v = mk("const", "0", nil)
+					}
+					// whole-struct reset from a literal: *s = T{f: x, …} — the fields listed get their value, the others 0
+					if e.Kind == "store" && e.Addr.isRecv() && e.Val.Op == "load" && e.Val.Args[0].unver().Op == "alloc" {
+						tmp := e.Val.Args[0].unver()
+						v = mk("const", "0", nil)
+						for _, e2 := range p.Effects {
+							if e2.Seq < e.Seq && e2.Kind == "store" && e2.Addr.Op == "field" && e2.Addr.Sym == fn && sameVal(e2.Addr.Args[0].unver(), tmp) {
+								v = e2.Val
+							}
+						}
+					}
 				}
 				if v == nil || v.Key() != zeroOf(fn).Key() {
 					ok = false
@@ -596,12 +610,28 @@ func c10StatObject(c *Ctx, a *sketchAnchors, rule string, part string) {
 							nTot++
 						case isRecvField(stripVers(r), plain[0]):
 							nan, inf := false, false
+							isPlain := func(x *Term) bool { return isRecvField(stripVers(x), plain[0]) }
+							isMaxF := func(x *Term, neg bool) bool {
+								x = stripVers(x)
+								if neg {
+									return x.Op == "un" && x.Sym == "-" && len(x.Args) == 1 && strings.HasPrefix(x.Args[0].Sym, "1.79769313486231") || x.Op == "const" && strings.HasPrefix(x.Sym, "-1.79769313486231")
+								}
+								return x.Op == "const" && strings.HasPrefix(x.Sym, "1.79769313486231")
+							}
 							for _, cd := range sp.Conds {
 								t := cd.Term
 								if t.Op == "call" && t.Sym == "math.IsNaN" && isTot(t.Args[0]) && cd.Taken {
 									nan = true
 								}
-								if t.Op == "call" && t.Sym == "math.IsInf" && isRecvField(stripVers(t.Args[0]), plain[0]) && t.Args[1].isConst("0") && cd.Taken {
+								// x != x (or x == x refuted) is the NaN test written out
+								if (t.isBin("==") || t.isBin("!=")) && isTot(t.Args[0]) && isTot(t.Args[1]) && cd.Taken == t.isBin("!=") {
+									nan = true
+								}
+								if t.Op == "call" && t.Sym == "math.IsInf" && isPlain(t.Args[0]) && t.Args[1].isConst("0") && cd.Taken {
+									inf = true
+								}
+								// beyond ±MaxFloat64 is the infinity test written out
+								if t.isBin("<") && cd.Taken && (isMaxF(t.Args[0], false) && isPlain(t.Args[1]) || isPlain(t.Args[0]) && isMaxF(t.Args[1], true)) {
 									inf = true
 								}
 							}
